@@ -220,6 +220,13 @@ def check_source_map(ob, fn, fails):
                 # keys never name the loaded file, so they cannot mis-map a generated line; they are counted, and
                 # reported to C12 (error locations), not judged here.
                 nforeign += 1
+        if bad and inspect.unwrap(fn) is not fn and all(b.startswith('origin line') for b in bad):
+            # origin_info.resolve_entity locates the entity with inspect.getsourcelines, which follows __wrapped__, while
+            # parse_entity reads the wrapper's own source: for a functools.wraps wrapper every origin is shifted into the
+            # WRAPPED function's lines.  A location defect of its own cause (not tree vs printed form): counted here and
+            # reported to C12, not judged.
+            ob.wrapped_origin_shift = len(bad)
+            bad = []
         if bad:
             fails.append(('source-map-out-of-range', bad[:4]))
         return len(ob.source_map) - nforeign
@@ -401,6 +408,8 @@ def run_case(mod, prog_key, source, cfg, want_api, want_lines):
         except Exception as e:
             fails.append(('module-file-unreadable', repr(e)[:200]))
         rec['stats']['source_map'] = check_source_map(ob, fn, fails)
+        if getattr(ob, 'wrapped_origin_shift', 0):
+            rec['stats']['wrapped_origin_shift'] = 1
         if want_api:
             check_api_text(fn, cfg[0], feats, fails, rec['stats'])
     rec['stats']['ncalls'] = len(ob.calls)
